@@ -91,3 +91,18 @@ for _i, (_nm, _mk) in enumerate([
                           functions=[dict(name='_dbus_header_cache_revalidate', file=HDR, status='bounded'),
                                      dict(name='_dbus_type_reader_init/_recurse/_get_current_type/_read_basic/_next (values reader)', file=REC, status='bounded')],
                           assumptions=['the header image is a valid header (what _dbus_header_load accepts: C01.hdr.exact.*; what edits are supposed to keep: not decided, realignment core)']))
+
+# ---- bounded "edited field reads back, others unchanged" through the real in-place set of a UINT32 field -------
+for _le, _f, _codes, _tier in ((1, 5, (5, 9), 'quick'), (0, 9, (5, 9), 'quick'), (0, 5, (9, 5), 'thorough'), (1, 9, (6 + 3, 5), 'thorough')):
+    _a = skel(_le, 32, 16, [(16, 'u'), (24, 'u')]) + 'in_buf[16]=%d;in_buf[24]=%d;' % _codes
+    UNITS.append(dict(name='C12.set_fixed.f%d.%s32' % (_f, 'le' if _le else 'be'), props=['C12', 'C14'], kind='B', route='stub',
+                      tus=[dict(file=HDR, include_as='VERIF_TU'), dict(file=STR), dict(file=BASIC), dict(file=REC), dict(file=SIG)],
+                      harness='harness/c12_setfixed.c', extra_sources=[ASSERT, 'stubs/c07_mem.c'], defines=['VERIF_N=32', 'VERIF_FIELD=%d' % _f, 'VERIF_HDR_ASSUME=%s' % _a],
+                      replace_calls=PAD_STUBS, unwind=35, timeout=2400, tier=_tier, expect_s=200,
+                      bounds={'header_bytes': 32, 'skeleton': ('little' if _le else 'big') + ' endian, two UINT32 fields with codes %d,%d (values, message type, flags, serial symbolic)' % _codes,
+                              'edit': 'set field %d (UINT32) that already exists: in-place branch only' % _f},
+                      functions=[dict(name='_dbus_header_set_field_basic / find_field_for_modification / set_basic_field / reserve_header_padding / correct_header_padding / _dbus_header_cache_*', file=HDR, status='bounded'),
+                                 dict(name='_dbus_type_reader_set_basic -> reader_set_basic_fixed_length, values reader', file=REC, status='bounded'),
+                                 dict(name='_dbus_marshal_set_basic', file=BASIC, status='bounded'),
+                                 dict(name='_dbus_string_lengthen/_shorten/_align_length', file=STR, status='stub', note='documented behaviour (same stubs as C12.padding.*)')],
+                      assumptions=[STR_ASSUME, 'the header image is valid per the reference decoder and the cache is consistent with it (entries correct or UNKNOWN)']))
